@@ -51,19 +51,23 @@ func (e *Enc) callCommon(fr *Frame, st *State, cc *ssa.CallCommon, fnv *Val, arg
 			return e.defaultCall(fr, st, cc.Method.FullName(), append([]*Val{recv}, args...), rt, hint, pos)
 		}
 		key := cc.Method.FullName()
-		if c, ok := e.DB.Contracts[key]; ok && c.callable() {
-			e.safety(fr, st, "nil", not(eq(recv.L[0].T, "0")), "method call on nil interface "+cc.Method.Name(), pos)
-			return e.applyContract(fr, st, c, append([]*Val{recv}, args...), rt, hint, pos)
-		}
-		// devirtualise when the dynamic type is known
+		// when the dynamic type is known, the concrete method is called (its contract, or its body)
 		if n, ok := isConstTerm(recv.L[0].T); ok && n.Sign() > 0 {
 			ct := e.TI.tagTyp[int(n.Int64())]
 			if ct != nil {
 				if fn := e.P.SSA.LookupMethod(ct, cc.Method.Pkg(), cc.Method.Name()); fn != nil {
-					rv := e.unboxAs(st, recv.L[1].T, ct)
-					return e.callStatic(fr, st, fn, nil, append([]*Val{rv}, args...), rt, hint, pos)
+					cc0, hasC := e.DB.Contracts[fnKey(fn)]
+					_, hasI := e.DB.Contracts[key]
+					if (hasC && cc0.callable()) || !hasI {
+						rv := e.unboxAs(st, recv.L[1].T, ct)
+						return e.callStatic(fr, st, fn, nil, append([]*Val{rv}, args...), rt, hint, pos)
+					}
 				}
 			}
+		}
+		if c, ok := e.DB.Contracts[key]; ok && c.callable() {
+			e.safety(fr, st, "nil", not(eq(recv.L[0].T, "0")), "method call on nil interface "+cc.Method.Name(), pos)
+			return e.applyContract(fr, st, c, append([]*Val{recv}, args...), rt, hint, pos)
 		}
 		e.safety(fr, st, "nil", not(eq(recv.L[0].T, "0")), "method call on nil interface "+cc.Method.Name(), pos)
 		return e.defaultCall(fr, st, key, append([]*Val{recv}, args...), rt, hint, pos)
